@@ -169,7 +169,7 @@ fn md_menu() -> Vec<Md> {
 }
 
 fn status_menu(tier: Tier) -> Vec<StatusSpec> {
-    let msgs: Vec<String> = vec!["".into(), "plain text".into(), "100% / %41".into(), "naïve ☃ 日本".into(), "ctl\u{1}\n\ttab\u{7f}".into()];
+    let msgs: Vec<String> = vec!["".into(), "plain text".into(), "100% / %41".into(), "naïve ☃ 日本".into(), "ctl\u{1}\n\ttab\u{7f}".into(), "quota%20exceeded".into(), "%41%zz%".into()];
     let dets: Vec<Vec<u8>> = vec![vec![], vec![0xfb], vec![0xff, 0x3e], vec![0, 1, 2], vec![0x3f, 0x3e, 0xff, 0x00]];
     let mds = md_menu();
     let mut out = vec![];
